@@ -1,8 +1,9 @@
-"""C13, stream C (oracle only): the global-name index of rope.contrib.autoimport (sqlite, in memory, observe=True)
+"""C13, stream C: the global-name index of rope.contrib.autoimport (sqlite, in memory, observe=True)
 on a long-lived project vs the index built by a brand-new AutoImport on a copy of the directory, after every step of
 histories of changes through rope and behind its back (+ project.validate())."""
 import os
 import random
+from harness.common import g_N, g_list, g_opt
 import shutil
 import tempfile
 import warnings
@@ -45,6 +46,65 @@ def fresh_index(root):
             p.close()
     finally:
         shutil.rmtree(copy, ignore_errors=True)
+
+
+AIHEADER = ("From stdpp Require Import gmap list sets.\nFrom Coq Require Import NArith.\n"
+            "From RopeVerif.C13 Require Import Observer AutoImport AIRunner.\n")
+
+
+class Intern:
+    def __init__(self):
+        self.seg, self.name = {}, {}
+
+    def path(self, p):
+        return [self.seg.setdefault(x, len(self.seg)) for x in p.split("/")]
+
+    def nm(self, n):
+        return self.name.setdefault(n, len(self.name))
+
+
+def mod_to_paths(root):
+    """dotted module name -> path of its file (the harness keeps the correspondence one to one)"""
+    files, _ = tree_of(root)
+    return {modname(f): f for f in files if f.endswith(".py")}
+
+
+def abstract_index(idx, m2p, it):
+    """set of (name, module, type) -> {path: sorted names}; a module whose file is gone keeps its last path"""
+    res = {}
+    for (name, module, _t) in idx:
+        p = m2p.get(module) or (module.replace(".", "/") + ".py")
+        res.setdefault(p, set()).add(name)
+    return {p: sorted(v) for p, v in res.items()}
+
+
+def g_p(it, p):
+    return g_list([g_N(x) for x in it.path(p)])
+
+
+def g_names(it, names):
+    return g_list([g_N(it.nm(n)) for n in sorted(names)])
+
+
+def g_index(it, d):
+    return g_list(["(%s, %s)" % (g_p(it, p), g_names(it, ns)) for p, ns in sorted(d.items())])
+
+
+def g_tree(it, root, fresh_names):
+    files, dirs = tree_of(root)
+    items = [(d, None) for d in dirs] + [(f, fresh_names.get(f, [])) for f in files if f.endswith(".py")]
+    return g_list(["(%s, %s)" % (g_p(it, p), g_opt(None if v is None else g_names(it, v))) for p, v in sorted(items)])
+
+
+def g_aiop(it, o):
+    k = o[0]
+    if k == "write":
+        return "(AWrite %s %s)" % (g_p(it, o[1]), g_names(it, o[2]))
+    if k == "create":
+        return "(ACreate %s %s)" % (g_p(it, o[1]), "true" if o[2] else "false")
+    if k == "remove":
+        return "(ARemove %s)" % g_p(it, o[1])
+    return "(AMove %s %s)" % (g_p(it, o[1]), g_p(it, o[2]))
 
 
 def tree_of(root):
@@ -133,34 +193,30 @@ def gen_step(rng, root):
     return ["xremove", rng.choice(pys)]
 
 
-def py_modnames_under(root, path):
-    real = os.path.join(root, *path.split("/"))
-    res = set()
-    if os.path.isdir(real):
-        for dp, dns, fns in os.walk(real):
-            for fn in fns:
-                if fn.endswith(".py"):
-                    rel = os.path.relpath(os.path.join(dp, fn), root).replace(os.sep, "/")
-                    res.add(modname(rel))
-    elif path.endswith(".py"):
-        res.add(modname(path))
-    return res
-
-
 def run_history(steps=None, rng=None, nsteps=0):
-    """returns dict(steps, failure, diagnosis, known=set of signatures met)"""
+    """Performs the history on a real project with an observing AutoImport.  Returns dict(steps, cases (Gallina
+    terms, one per step), classes (per step: file / folder / external), disagreements [(step, only_warm, only_fresh)])."""
     from rope.base.project import Project
     from rope.base import change as ch
     from rope.contrib.autoimport.sqlite import AutoImport
     root = tempfile.mkdtemp(prefix="ropeverif-c13a-")
-    out = {"steps": [], "failure": None, "diagnosis": None, "known": []}
+    out = {"steps": [], "cases": [], "classes": [], "disagreements": []}
     fake = [1000000000]
-    dirty_folder, dirty_external = set(), set()
+    it = Intern()
+    known = {}
+
+    def snapshot(ai):
+        known.update(mod_to_paths(root))
+        warm = abstract_index(index_of(ai), known, it)
+        fresh = abstract_index(fresh_index(root), known, it)
+        return warm, fresh
+
     with warnings.catch_warnings():
         warnings.simplefilter("ignore")
         project = Project(root, ropefolder=None)
         ai = AutoImport(project, observe=True, memory=True)
         try:
+            warm, fresh = snapshot(ai)
             i = 0
             while True:
                 if steps is not None:
@@ -172,76 +228,71 @@ def run_history(steps=None, rng=None, nsteps=0):
                         break
                     st = gen_step(rng, root) or ["noop"]
                 out["steps"].append(st)
+                pre_tree = g_tree(it, root, fresh)
+                pre_idx = g_index(it, warm)
                 k = st[0]
+                cls = "file"
+                todo = []       # model steps; the names of written files are filled in afterwards
                 if k == "create_write":
                     cs = ch.ChangeSet("c")
                     cs.add_change(ch.CreateResource(project.get_file(st[1])))
                     cs.add_change(ch.ChangeContents(project.get_file(st[1]), st[2]))
                     project.do(cs)
-                    dirty_folder.discard(modname(st[1]))
-                    dirty_external.discard(modname(st[1]))
+                    todo = [("R", ("create", st[1], False)), ("R", ("write", st[1], None))]
                 elif k == "write":
-                    project.get_file(st[1]).write(st[2])
-                    dirty_folder.discard(modname(st[1]))
-                    dirty_external.discard(modname(st[1]))
+                    f = project.get_file(st[1])
+                    same = f.read() == st[2]      # File.write of the same contents is a no-op: no change, no event
+                    f.write(st[2])
+                    todo = [] if same else [("R", ("write", st[1], None))]
                 elif k == "mkpkg":
+                    init = st[1] + "/__init__.py"
                     cs = ch.ChangeSet("p")
                     cs.add_change(ch.CreateResource(project.get_folder(st[1])))
-                    cs.add_change(ch.CreateResource(project.get_file(st[1] + "/__init__.py")))
-                    cs.add_change(ch.ChangeContents(project.get_file(st[1] + "/__init__.py"), st[2]))
+                    cs.add_change(ch.CreateResource(project.get_file(init)))
+                    cs.add_change(ch.ChangeContents(project.get_file(init), st[2]))
                     project.do(cs)
-                    dirty_folder.discard(modname(st[1] + "/__init__.py"))
-                    dirty_external.discard(modname(st[1] + "/__init__.py"))
+                    todo = [("R", ("create", st[1], True)), ("R", ("create", init, False)), ("R", ("write", init, None))]
                 elif k == "move":
                     res = project.get_resource(st[1])
-                    if res.is_folder():
-                        dirty_folder |= py_modnames_under(root, st[1])
-                        res.move(st[2])
-                        dirty_folder |= py_modnames_under(root, st[2])
-                    else:
-                        res.move(st[2])
-                        for m in (modname(st[1]), modname(st[2])):
-                            dirty_folder.discard(m)
-                            dirty_external.discard(m)
+                    cls = "folder" if res.is_folder() else "file"
+                    res.move(st[2])
+                    todo = [("R", ("move", st[1], st[2]))]
                 elif k == "remove":
                     res = project.get_resource(st[1])
-                    if res.is_folder():
-                        dirty_folder |= py_modnames_under(root, st[1])
-                    else:
-                        dirty_folder.discard(modname(st[1]))
-                        dirty_external.discard(modname(st[1]))
+                    cls = "folder" if res.is_folder() else "file"
                     res.remove()
+                    todo = [("R", ("remove", st[1]))]
                 elif k in ("xwrite", "xcreate"):
+                    cls = "external"
                     real = os.path.join(root, *st[1].split("/"))
                     with open(real, "w") as f:
                         f.write(st[2])
                     fake[0] += 7
                     os.utime(real, (fake[0], fake[0]))
-                    dirty_external.add(modname(st[1]))
-                    dirty_folder.discard(modname(st[1]))
                     project.validate()
+                    todo = [("X", ([("create", st[1], False)] if k == "xcreate" else []) + [("write", st[1], None)])]
                 elif k == "xremove":
+                    cls = "external"
                     os.remove(os.path.join(root, *st[1].split("/")))
-                    dirty_external.add(modname(st[1]))
-                    dirty_folder.discard(modname(st[1]))
                     project.validate()
-                warm = index_of(ai)
-                fresh = fresh_index(root)
-                if warm != fresh:
-                    diffmods = set(m for (_, m, _) in warm ^ fresh)
-                    if diffmods <= dirty_folder:
-                        sig = FOLDER_SIG
-                    elif diffmods <= (dirty_folder | dirty_external):
-                        sig = EXTERNAL_SIG
+                    todo = [("X", [("remove", st[1])])]
+                warm, fresh = snapshot(ai)
+
+                def fill(o):
+                    return ("write", o[1], fresh.get(o[1], [])) if o[0] == "write" else o
+                terms = []
+                for (w, o) in todo:
+                    if w == "R":
+                        terms.append("SRope %s" % g_aiop(it, fill(o)))
                     else:
-                        sig = "autoimport-index-out-of-date"
-                    if sig not in out["known"]:
-                        out["known"].append(sig)
-                    if out["failure"] is None or sig == "autoimport-index-out-of-date":
-                        out["failure"] = {"step": i, "only_warm": sorted(warm - fresh)[:8], "only_fresh": sorted(fresh - warm)[:8]}
-                        out["diagnosis"] = sig
-                    if sig == "autoimport-index-out-of-date":
-                        break
+                        terms.append("SExternal %s" % g_list([g_aiop(it, fill(x)) for x in o]))
+                out["cases"].append("{| a_tree := %s; a_idx := %s; a_steps := %s; a_post := %s; a_fresh := %s |}" % (
+                    pre_tree, pre_idx, g_list(terms), g_index(it, warm), g_index(it, fresh)))
+                out["classes"].append(cls)
+                if warm != fresh:
+                    ow = sorted((p, n) for p, ns in warm.items() for n in ns if n not in fresh.get(p, []))
+                    of = sorted((p, n) for p, ns in fresh.items() for n in ns if n not in warm.get(p, []))
+                    out["disagreements"].append((i, ow[:6], of[:6]))
                 i += 1
         finally:
             ai.close()
@@ -252,23 +303,66 @@ def run_history(steps=None, rng=None, nsteps=0):
 
 def run(ctx):
     n = ctx.scale(25, 200)
+    hists, tagged = [], []
     for _ in range(n):
         rng = random.Random(ctx.rng.getrandbits(48))
         res = run_history(rng=rng, nsteps=rng.randint(5, 12))
         ctx.case(("autoimport", repr(res["steps"])), nontrivial=len(res["steps"]) >= 5)
+        ctx.traces += 1
         ctx.count("stream:C (autoimport index)")
         for s in res["steps"]:
             ctx.count("ai:" + s[0])
-        if res["failure"] is not None:
-            sig = res["diagnosis"]
-            obj = {"kind": "autoimport-history", "steps": res["steps"][:res["failure"]["step"] + 1],
-                   "failure": res["failure"], "diagnosis": sig}
-            ctx.violation(obj, "C13: the auto-import index of the long-lived project differs from a brand-new index (%s): "
-                          "only warm %r / only fresh %r" % (sig, res["failure"]["only_warm"][:3], res["failure"]["only_fresh"][:3]))
+        h = len(hists)
+        hists.append(res)
+        tagged.extend((h, j, c) for j, c in enumerate(res["cases"]))
+    # the model's step against the live index, case by case
+    shard = 300
+    bodies = [AIHEADER + "Definition cases : list aicase := %s.\nEval vm_compute in (aimismatches cases).\n"
+              "Eval vm_compute in (all_aiflags cases).\n" % g_list([c for _, _, c in tagged[k:k + shard]]).replace("; {|", ";\n {|")
+              for k in range(0, len(tagged), shard)]
+    outs = ctx.coq_files_parallel(bodies) if bodies else []
+    mism, flags = {}, []
+    for si, o in enumerate(outs):
+        pairs = ctx.parse_pairs(o)
+        for (i, code) in (pairs[0] if pairs else []):
+            mism[si * shard + i] = code
+        nums = ctx.parse_nums(o)
+        flags.extend(nums[-1] if nums else [])
+    ctx.extra["autoimport_coq_cases"] = len(tagged)
+    per = {}
+    for gi, (h, j, c) in enumerate(tagged):
+        per.setdefault(h, []).append((j, mism.get(gi, 0), flags[gi] if gi < len(flags) else 0))
+    indom = sum(1 for fl in flags if fl & 2)
+    ctx.extra["autoimport_steps_in_domain_of_C13_autoimport_step_coherent"] = indom
+    for h, res in enumerate(hists):
+        rows = per.get(h, [])
+        bad = [(j, code) for (j, code, fl) in rows if code]
+        if bad:
+            j, code = bad[0]
+            ctx.violation({"kind": "autoimport-history", "steps": res["steps"][:j + 1], "diagnosis": "autoimport-index-out-of-date",
+                           "failure": {"step": j, "what": "the live index differs from the model's" if code == 1 else
+                                       "the brand-new index differs from the model's"}},
+                          "C13: auto-import index: %s after step %d %r" % (
+                              "the live index is not what the model of AutoImport's observer predicts" if code == 1 else
+                              "a brand-new index is not what the model predicts", j, res["steps"][j][:2]),
+                          no_input=not res["disagreements"])
+        elif res["disagreements"]:
+            # every step is exactly what the model predicts: the disagreement is the model's, and the model is only
+            # incoherent after a step outside the domain of C13_autoimport_step_coherent
+            first = [j for (j, code, fl) in rows if not fl & 2]
+            i0, ow, of = res["disagreements"][0]
+            if not first or first[0] > i0:
+                sig = "autoimport-index-out-of-date"
+            else:
+                sig = {"folder": FOLDER_SIG, "external": EXTERNAL_SIG}.get(res["classes"][first[0]], "autoimport-index-out-of-date")
+            ctx.violation({"kind": "autoimport-history", "steps": res["steps"][:i0 + 1], "diagnosis": sig,
+                           "failure": {"step": i0, "only_warm": ow, "only_fresh": of}},
+                          "C13: the auto-import index of the long-lived project differs from a brand-new index (%s): only warm %r / "
+                          "only fresh %r" % (sig, ow[:3], of[:3]))
         if ctx.too_many():
             return
 
 
 def replay(ctx, obj):
     res = run_history(steps=obj["steps"])
-    return res["failure"] is not None
+    return bool(res["disagreements"])
